@@ -9,6 +9,7 @@ sys.path.insert(0, os.path.dirname(os.path.abspath(__file__)))
 import vlib  # noqa: E402
 
 FAMILY = {
+    "C20": "fam_ref",
     "C01": "fam_copy", "C02": "fam_copy", "C03": "fam_copy", "C04": "fam_copy",
 }
 LEVEL = "model_checking"
